@@ -1001,7 +1001,9 @@ class C11(core.Check):
         "Frustum with/without mid radius, Elbow, ExtrudedRing, RevolvedRing, Hemisphere; L/T/N joints with 2..7 "
         "branches; Extruded/Revolved/LoftedShape on each of the 12 disk/oval/wrapped/spline sketches; Extruded/"
         "Revolved/TransformedStack on those sketches and on Grid(n,m) with 1..4 tiers) or a chain of 2..4 round shapes "
-        "(chain / expand / contract / fill / hemisphere cap), placed by a random rational quaternion, offset and scale, "
+        "(chain / expand / contract / fill / hemisphere cap), or (kind Pts) one disk / wrapped / oval / grid sketch or one "
+        "Cylinder / SemiCylinder / Frustum / ExtrudedShape whose generated points are compared with the Lean model of the "
+        "point generators, placed by a random rational quaternion, offset and scale, "
         "with random radii, lengths, segment/branch counts, and the documented chop calls with random count / size / "
         "expansion arguments. Non-trivial = the entity was built and assembled; distinct = different class, "
         "parameters or placement."
@@ -1022,8 +1024,13 @@ class C11(core.Check):
         "Topology (choppability, single chop per wire family, conformity, orientation of the quad maps, ring/stack/"
         "grid families for every size) is proved in Lean on tables regenerated from the source; handedness, shared "
         "faces in space, on-circle and the interface of chained shapes are checked by exact/tolerance validators on "
-        "the implementation's output for the generated placements only (no theorem about the trigonometric point "
-        "generators); joints are proved for 2..6 branches and tested beyond."
+        "the implementation's output for the generated placements only. Round 6: the point generators of OneCoreDisk, "
+        "QuarterDisk, HalfDisk, FourCoreDisk and of ExtrudedShape / Cylinder / SemiCylinder / Frustum over them are an "
+        "executable model (compared point by point) with theorems for all placements over every ordered field (faces "
+        "counter-clockwise, blocks right-handed, rim on the circle; over R with the source's constants); WrappedDisk, "
+        "Oval and Grid are modelled and compared but have no theorem; Elbow, Hemisphere, rings beyond one segment, "
+        "spline sketches, the cusp shear of the joints and the distinctness of the generated points stay validator-only; "
+        "joints are proved for 2..6 branches and tested beyond."
     )
 
     # ------------------------------------------------------------------ generators
@@ -1032,7 +1039,7 @@ class C11(core.Check):
         cases: List[dict] = []
         if tier == "quick":
             plan = {k: 4 for k in kinds}
-            plan.update(ExtrudedShape=4, RevolvedShape=8, LoftedShape=8, ExtrudedStack=8, TransformedStack=6, RevolvedStack=5, Chain=14, NJoint=3, ExtrudedRing=6, RevolvedRing=5)
+            plan.update(ExtrudedShape=4, RevolvedShape=6, LoftedShape=6, ExtrudedStack=6, TransformedStack=6, RevolvedStack=5, Chain=11, NJoint=3, ExtrudedRing=6, RevolvedRing=5)
         else:
             plan = {k: 40 for k in kinds}
             plan.update(ExtrudedShape=150, RevolvedShape=80, LoftedShape=80, ExtrudedStack=80, TransformedStack=60, RevolvedStack=50, Chain=300, NJoint=60)
@@ -1139,7 +1146,7 @@ class C11(core.Check):
                         c["p"].update(keep)
                         cases.append(c)
         # the point generators alone (model of disk.py / grid.py / cylinder.py / frustum.py / ExtrudedShape)
-        for _ in range(2 if tier == "quick" else 12):
+        for _ in range(2 if tier == "quick" else 8):
             for what in PTS_WHAT:
                 cases.append(gen_pts(rng, what))
         # malformed / boundary stream for the model's request parser
